@@ -45,6 +45,15 @@ MANIFEST = dict(
 TRUSTED_EXTRA = []
 
 
+# model regenerated from the C++ sources + its equality with the hand model (see props/_implgen.py)
+from props import _implgen
+LEAN_MODULES = LEAN_MODULES + _implgen.MODULES_FOR[ID]
+THEOREMS = THEOREMS + _implgen.THEOREMS_FOR[ID]
+ASSUMPTIONS = ASSUMPTIONS + _implgen.ASSUMPTIONS
+TRUSTED_EXTRA = list(globals().get("TRUSTED_EXTRA", [])) + _implgen.TRUSTED_EXTRA
+TRANSLATORS = dict(globals().get("TRANSLATORS", {}), **_implgen.TRANSLATORS)
+
+
 def cues_flag_offset(p):
     """offset of the is_main_cue_adjusted byte in a 2.x quick-cues payload, or None"""
     if len(p) < 25:
